@@ -2,8 +2,13 @@ package harness
 
 import (
 	"fmt"
+	"math/rand"
 	"testing"
 	"time"
+
+	clienttypes "github.com/bianjieai/tibc-go/modules/tibc/core/02-client/types"
+	abci "github.com/cometbft/cometbft/abci/types"
+	simtestutil "github.com/cosmos/cosmos-sdk/testutil/sims"
 
 	"cosmossdk.io/math"
 	cmtproto "github.com/cometbft/cometbft/proto/tendermint/types"
@@ -77,4 +82,73 @@ func newDetChain(t *testing.T, coord *tibctesting.Coordinator, chainID string) *
 	}
 	chain.NextBlock()
 	return chain
+}
+
+// detSendMsgs is TestChain.SendMsgs with a transaction whose bytes do not depend on the wall clock: the repository's
+// helper seeds the mock transaction's random memo with time.Now(), which makes transaction size, gas and signature
+// differ from run to run. Everything else (one transaction per block, commit, header bookkeeping, clock) is the same.
+func detSendMsgs(chain *tibctesting.TestChain, msgs ...sdk.Msg) (*abci.ExecTxResult, error) {
+	chain.Coordinator.UpdateTimeForChain(chain)
+	defer func() {
+		_ = chain.SenderAccount.SetSequence(chain.SenderAccount.GetSequence() + 1)
+	}()
+	seed := int64(chain.App.LastBlockHeight())*1000003 + int64(chain.SenderAccount.GetAccountNumber())
+	tx, err := simtestutil.GenSignedMockTx(rand.New(rand.NewSource(seed)), chain.TxConfig, msgs,
+		sdk.Coins{sdk.NewInt64Coin(sdk.DefaultBondDenom, 0)}, simtestutil.DefaultGenTxGas, chain.ChainID,
+		[]uint64{chain.SenderAccount.GetAccountNumber()}, []uint64{chain.SenderAccount.GetSequence()}, chain.SenderPrivKey)
+	if err != nil {
+		return nil, err
+	}
+	txBytes, err := chain.TxConfig.TxEncoder()(tx)
+	if err != nil {
+		return nil, err
+	}
+	resp, err := chain.App.FinalizeBlock(&abci.RequestFinalizeBlock{Height: chain.App.LastBlockHeight() + 1, Time: chain.ProposedHeader.GetTime(),
+		NextValidatorsHash: chain.NextVals.Hash(), Txs: [][]byte{txBytes}})
+	if err != nil {
+		return nil, err
+	}
+	detCommitBlock(chain, resp)
+	if len(resp.TxResults) != 1 {
+		return nil, fmt.Errorf("expected one tx result, got %d", len(resp.TxResults))
+	}
+	res := resp.TxResults[0]
+	if res.Code != 0 {
+		return res, fmt.Errorf("%s/%d: %q", res.Codespace, res.Code, res.Log)
+	}
+	chain.Coordinator.IncrementTime()
+	return res, nil
+}
+
+// detCommitBlock mirrors TestChain.commitBlock (unexported).
+func detCommitBlock(chain *tibctesting.TestChain, res *abci.ResponseFinalizeBlock) {
+	if _, err := chain.App.Commit(); err != nil {
+		chain.T.Fatal(err)
+	}
+	chain.LastHeader = chain.CurrentTMClientHeader()
+	chain.Vals = chain.NextVals
+	chain.NextVals = tibctesting.ApplyValSetChanges(chain.T, chain.Vals, res.ValidatorUpdates)
+	chain.ProposedHeader = cmtproto.Header{
+		ChainID:            chain.ChainID,
+		Height:             chain.App.LastBlockHeight() + 1,
+		AppHash:            chain.App.LastCommitID().Hash,
+		Time:               chain.ProposedHeader.Time,
+		ValidatorsHash:     chain.Vals.Hash(),
+		NextValidatorsHash: chain.NextVals.Hash(),
+		ProposerAddress:    chain.ProposedHeader.ProposerAddress,
+	}
+}
+
+// detUpdateTMClient is TestChain.UpdateTMClient through detSendMsgs.
+func detUpdateTMClient(chain, counterparty *tibctesting.TestChain, chainName string) error {
+	header, err := chain.ConstructUpdateTMClientHeader(counterparty, chainName)
+	if err != nil {
+		return err
+	}
+	msg, err := clienttypes.NewMsgUpdateClient(chainName, header, chain.SenderAccount.GetAddress())
+	if err != nil {
+		return err
+	}
+	_, err = detSendMsgs(chain, msg)
+	return err
 }
